@@ -284,6 +284,14 @@ def record_planning(name, net, eq, data, chk, policy='first_fit'):
         except RuntimeError:
             if 'tr' not in box:
                 raise
+        except Machinery:
+            raise
+        except Exception as e:                       # noqa
+            if 'tr' not in box:
+                # the batch never reached the assignment: routing / propagation of these (loadable) services raised
+                chk.violation(f'B3|planning-raises-before-assignment|{type(e).__name__}',
+                              dict(trace=name, exception=f'{type(e).__name__}: {e}'))
+                box['tr'] = None
     finally:
         wu.pth_assign_spectrum = orig
     return box['tr']
@@ -451,6 +459,34 @@ def run_b3(chk):
                             'max-nb-of-channel': None, 'output-power': 0.001, 'path_bandwidth': 100e9}}})
     jobs.append(record_planning('multiband:crafted-band-edges', net, eq,
                                 loadable({'path-request': crafted}, ['crafted'] * len(crafted), eq, chk), chk))
+    # a two-span link whose three amplifiers have three different band definitions (medium, wider, narrower): every one of
+    # them limits the usable band of the section, in whatever order they come
+    eq3 = equipment('eqpt_config_multiband.json')
+    for order in ([0, 1, 2], [1, 0, 2], [2, 1, 0])[:(1 if chk.tier == 'quick' else 3)]:
+        kinds3 = ['std_medium_gain', 'std_low_gain', 'std_low_gain_reduced_band']
+        js = line_or_mesh_json(['A', 'B'], [])
+        for x, y in (('A', 'B'), ('B', 'A')):
+            names = [f'booster {x}{y}', f'inline {x}{y}', f'preamp {x}{y}']
+            for nm, k in zip(names, order):
+                js['elements'].append({'uid': nm, 'type': 'Edfa', 'type_variety': kinds3[k]})
+            for sp in (1, 2):
+                js['elements'].append({'uid': f'span{sp} {x}{y}', 'type': 'Fiber', 'type_variety': 'SSMF',
+                                       'params': {'length': 80, 'length_units': 'km', 'loss_coef': 0.2, 'con_in': None,
+                                                  'con_out': None}})
+            chain = [f'roadm {x}', names[0], f'span1 {x}{y}', names[1], f'span2 {x}{y}', names[2], f'roadm {y}']
+            js['connections'] += [{'from_node': p, 'to_node': q} for p, q in zip(chain, chain[1:])]
+        from gnpy.tools.json_io import network_from_json
+        net = designed_network(eq3, network_from_json(js, eq3))[0]
+        fixed = [(None, None), (-240, 4), (None, None), (-100, 4), (None, 4)]
+        reqs = [{'request-id': f't{k}', 'source': 'trx A' if k % 2 == 0 else 'trx B',
+                 'destination': 'trx B' if k % 2 == 0 else 'trx A', 'src-tp-id': 'x', 'dst-tp-id': 'y', 'bidirectional': False,
+                 'path-constraints': {'te-bandwidth': {
+                     'technology': 'flexi-grid', 'trx_type': 'Voyager', 'trx_mode': 'mode 1',
+                     'effective-freq-slot': [{'N': n0, 'M': m0}], 'spacing': [50e9, 62.5e9, 75e9][k % 3],
+                     'max-nb-of-channel': None, 'output-power': 0.001, 'path_bandwidth': 100e9}}}
+                for k, (n0, m0) in enumerate((n, None if m is None else 6) for n, m in fixed)]
+        jobs.append(record_planning(f'three-band-definitions:{"".join(map(str, order))}', net, eq3,
+                                    loadable({'path-request': reqs}, ['crafted'] * len(reqs), eq3, chk), chk))
     # amplifier band edges off the 6.25 GHz grid (191.2781 - 196.1230 THz): the slots cut by an edge are outside the band
     for b in range(1 if chk.tier == 'quick' else 4):
         from gnpy.tools.json_io import _equipment_from_json, DEFAULT_EXTRA_CONFIG
@@ -462,6 +498,7 @@ def run_b3(chk):
         net = designed_network(eq, load_network(EX / 'meshTopologyExampleV2.json', eq))[0]
         data, kinds = random_services(net, rng, 10, f'g{b}-')
         jobs.append(record_planning(f'meshV2-offgrid-amps:seeded-batch-{b}', net, eq, loadable(data, kinds, eq, chk), chk))
+    jobs = [j for j in jobs if j is not None]
     traces_ok = judge_traces(jobs, chk)
     chk.cov['b3_traces'] = len(jobs)
     chk.cov['b3_requests'] = sum(len(t['ev']) for t in jobs)
